@@ -36,6 +36,35 @@ def role(t):
     return "?"
 
 
+ZERO = ("const", "$zero")
+
+
+def conj(t):
+    """the primal counterpart of a tangent-role term: tree_tangent -> tree_primal, .tangent -> .primal, second component of a (primal, tangent) pair
+    (jax.jvp, Dual.tree_unzip, a dual continuation) -> first component; zeros -> ZERO.  None when t is not a pure tangent accessor."""
+    if is_call(t, "zero") or is_call(t, "zeros_like") or (is_t(t, "const") and t[1] in (0, 0.0)):
+        return ZERO
+    if is_t(t, "treemap") and t[1] in (C(0.0), C(0)):
+        return ZERO
+    if is_call(t, "tree_tangent"):
+        return ("call", ("attr", t[1][1], "tree_primal") if is_t(t[1], "attr") else t[1], t[2], t[3])
+    if is_t(t, "attr") and t[2] == "tangent":
+        return ("attr", t[1], "primal")
+    if is_t(t, "proj"):
+        if t[2] == 1 and (is_call(t[1], "jvp") or is_call(t[1], "tree_unzip") or (is_t(t[1], "call") and t[1][1] == mk_proj(P("konts"), 1))
+                          or (is_t(t[1], "stack") and is_t(t[1][1], "call") and t[1][1][1] == mk_proj(P("konts"), 1))):
+            return ("proj", t[1], 0)
+        if is_t(t[1], "stack") and is_t(t[1][1], "proj") and t[1][1][2] == 1 and is_t(t[1][1][1], "call") and t[1][1][1][1] == mk_proj(P("konts"), 1):
+            return None
+        inner = conj(t[1])
+        if inner is not None and inner is not ZERO:
+            return ("proj", inner, t[2])
+        return None
+    if is_t(t, "stack") and is_t(t[1], "proj") and t[1][2] == 1 and is_t(t[1][1], "call") and t[1][1][1] == mk_proj(P("konts"), 1):
+        return ("stack", ("proj", t[1][1], 0))
+    return None
+
+
 def flat_items(t):
     """items of a tuple term, expanding *x of tuple-valued x symbolically"""
     if is_t(t, "tuple"):
@@ -53,6 +82,11 @@ def role_tangent(chk, inst, ret, where):
             base = tg[1] if is_t(tg, "star") else tg
             n += 1
             chk.require(role(base) != "P", "ROLE-TANGENT", f"{inst}/jvp-tangent[{i}]", f"tangent operand {i} of jax.jvp", derived=f"{show(base)[:160]} (role {role(base)})", expected="derived from Dual.tree_tangent(dual_tree) / zeros / a tangent output - not from the primal tree", where=where)
+            if len(prims) == len(tangs) and not any(is_t(x, "star") for x in prims + tangs):
+                cj = conj(base)
+                if cj is not None and cj is not ZERO:
+                    chk.require(cj == prims[i], "TANGENT-PAIRING", f"{inst}/jvp-pair[{i}]", f"tangent operand {i} of jax.jvp belongs to a different primal",
+                                derived=f"primal operand {show(prims[i])[:120]}; tangent operand is the tangent of {show(cj)[:120]}", expected="operand i of the tangents tuple is the tangent (or zero) of operand i of the primals tuple", where=where)
     for d in [x for x in subterms(ret) if is_t(x, "ctor") and x[1] == "Dual" and len(x[2]) == 2]:
         tg = d[2][1]
         if tg in (C(None),):
@@ -61,6 +95,14 @@ def role_tangent(chk, inst, ret, where):
         monos = lin(tg)
         bad = [m for m in monos if m and role(("tuple", tuple(m))) == "P"]
         chk.require(role(tg) != "P" and not bad, "ROLE-TANGENT", f"{inst}/Dual-tangent", "tangent field of a returned Dual", derived=f"{show(tg)[:160]} (role {role(tg)}; primal-only addends: {[show_lin({m: 1}) for m in bad][:2]})", expected="every addend tangent-derived", where=where)
+        # the bare tangent addends (coefficient 1, single factor) are the tangents of the bare primal addends
+        pm_ = lin(d[2][0])
+        for m in monos:
+            if len(m) == 1 and monos[m] == 1:
+                cj = conj(next(iter(m)))
+                if cj is not None and cj is not ZERO:
+                    chk.require(frozenset([cj]) in pm_, "TANGENT-PAIRING", f"{inst}/Dual-pair", "the primal field of a returned Dual is not the value its tangent belongs to",
+                                derived=f"Dual({show(d[2][0])[:120]}, ... + {show(next(iter(m)))[:120]})", expected=f"primal field contains {show(cj)[:120]}", where=where)
     return n
 
 
@@ -173,6 +215,56 @@ def run(chk, prog):
         val = lambda c: [y for y in subterms(c[2][1]) if is_t(y, "const") and isinstance(y[1], bool)]
         oke = oke and kd_true and kd_false and val(kd_true[0])[:1] == [C(True)] and val(kd_false[0])[:1] == [C(False)] and role(pr[0]) == "P"
     chk.require(bool(oke), "ENUM-WEIGHTS", "FlipEnum.jvp_estimate", "exact expectation over {True, False}", derived=show(jv[0])[:300] if jv else "no jvp", expected="p * K(True) + (1 - p) * K(False) with p the probs= parameter of the sampler", where=w)
+    # FlipMVD: measure-valued derivative  b_tangent + (-1)^v * (K(not b) - K(b)) * p_tangent
+    FM = prog.cls("FlipMVD", PRIM)
+    evm = Evaluator(prog)
+    evm.opaque_methods |= {"sample"}
+    rm_ = evm.eval_fn(FM.methods["jvp_estimate"], FM.module, FM)
+    w = f"{FM.module.rel}:{FM.methods['jvp_estimate'].lineno}"
+    okm = is_t(rm_.ret, "ctor") and rm_.ret[1] == "Dual" and len(rm_.ret[2]) == 2
+    derm = show(rm_.ret)[:200]
+    if okm:
+        bp, tg = rm_.ret[2]
+        form = lin(tg)
+        derm = show_lin(form)[:400]
+        kdc = [x for x in subterms(bp) if is_t(x, "call") and x[1] == KD]
+        okm = len(form) == 3 and len(kdc) >= 1
+        if okm:
+            singles = [m for m, c in form.items() if len(m) == 1 and c == 1]
+            triples = [(m, c) for m, c in form.items() if len(m) == 3]
+            okm = len(singles) == 1 and role(next(iter(singles[0]))) == "T" and conj(next(iter(singles[0]))) == bp and len(triples) == 2
+            if okm:
+                (m1, c1), (m2, c2) = triples
+                common = m1 & m2
+                rest1, rest2 = next(iter(m1 - common), None), next(iter(m2 - common), None)
+                if rest1 is not None and rest2 is not None and is_t(rest2, "call") and rest2[1] == KP:
+                    (rest1, c1), (rest2, c2) = (rest2, c2), (rest1, c1)
+                # rest1: the pure continuation at the OTHER outcome, coefficient +1; rest2: primal of the dual continuation at the sampled outcome, -1
+                okm = len(common) == 2 and any(is_t(x, "bin") and x[1] == "**" for x in common) and any(role(x) == "T" and conj(x) is not None for x in common) \
+                    and is_t(rest1, "call") and rest1[1] == KP and c1 == 1 and rest2 == bp and c2 == -1 \
+                    and any(is_call(a, "logical_not") for a in rest1[2])
+    chk.require(bool(okm), "MVD-FORM", "FlipMVD.jvp_estimate", "measure-valued derivative of a Bernoulli", derived=derm, expected="Dual(K(b).primal, K(b).tangent + (-1)^v * (Kpure(not b) - K(b).primal) * p_tangent)", where=w)
+    # FlipEnumParallel: weights [p, 1 - p] in the order of the enumerated outcomes [True, False]
+    FP = prog.cls("FlipEnumParallel", PRIM)
+    evq = Evaluator(prog)
+    rq = evq.eval_fn(FP.methods["jvp_estimate"], FP.module, FP)
+    w = f"{FP.module.rel}:{FP.methods['jvp_estimate'].lineno}"
+    jq = calls(rq.ret, "jvp")
+    okq = len(jq) == 1 and evq.closure_of(jq[0][2][0]) is not None
+    derq = "no jvp"
+    if okq:
+        bodyq = evq.apply(jq[0][2][0], [P("$p"), P("$ret")], module=FP.module, cls=FP)
+        derq = show(bodyq)[:200]
+        arrs = [x for x in subterms(bodyq) if is_call(x, "array") and x[2] and is_t(x[2][0], "list") and len(x[2][0][1]) == 2]
+        outs = [x for x in subterms(rq.ret) if is_call(x, "array") and x[2] and is_t(x[2][0], "list") and [y for y in x[2][0][1]] in ([C(True), C(False)], [C(False), C(True)])]
+        okq = len(arrs) == 1 and len(outs) >= 1
+        if okq:
+            w0, w1 = (lin(y) for y in arrs[0][2][0][1])
+            P1, Q1 = {frozenset([P("$p")]): 1}, {frozenset(): 1, frozenset([P("$p")]): -1}
+            order = [y[1] for y in outs[0][2][0][1]]
+            okq = (order == [True, False] and w0 == P1 and w1 == Q1) or (order == [False, True] and w0 == Q1 and w1 == P1)
+            okq = okq and is_call(bodyq, "sum") and lin(bodyq[2][0]) == {frozenset([arrs[0], P("$ret")]): 1}
+    chk.require(bool(okq), "ENUM-WEIGHTS", "FlipEnumParallel.jvp_estimate/weights", "exact expectation over [True, False]", derived=derq, expected="sum([p, 1 - p] * K([True, False]))", where=w)
     # enumeration weights agree with the sampler's parameter role
     for cn in ("FlipEnumParallel", "CategoricalEnumParallel"):
         ci = prog.cls(cn, PRIM)
@@ -340,6 +432,34 @@ def run(chk, prog):
     ow = [e for e in eff if is_call(e, "safe_map") and len(e[2]) == 3 and e[2][1] == ("attr", el, "outvars")]
     okw = len(ow) == 1 and is_call(ow[0][2][2], "dual_tree")
     chk.require(okw, "INTERP-SKELETON", "eval_jaxpr_iterate_dual/outvars", "primal and tangent outputs written as duals to this equation's outvars", derived=show(ow[0])[:200] if ow else "no write", expected="safe_map(dual_env.write, eqn.outvars, Dual.dual_tree(primal_outs, tangent_outs))", where=whereI)
+    if okw:
+        def phi_leaves(t):
+            if is_t(t, "phi"):
+                return phi_leaves(t[2]) + phi_leaves(t[3])
+            if is_t(t, "list") and len(t[1]) == 1:
+                return phi_leaves(t[1][0])
+            return [t]
+        rule_call = lambda x: is_t(x, "call") and is_t(x[1], "call") and x[1][2] == (("attr", el, "primitive"),)
+        a0, a1 = ow[0][2][2][2][:2] if len(ow[0][2][2][2]) >= 2 else (None, None)
+        okr_ = a0 is not None
+        bad_ = []
+        if okr_:
+            for side, arg, want in (("primal", a0, 0), ("tangent", a1, 1)):
+                for lf in phi_leaves(arg):
+                    if is_t(lf, "proj") and rule_call(lf[1]):
+                        if lf[2] != want:
+                            bad_.append(f"{side} slot takes component {lf[2]} of the JVP rule's result")
+                        rc = lf[1]
+                        if len(rc[2]) >= 2 and not (is_t(rc[2][0], "proj") and rc[2][0][2] == 0 and is_call(rc[2][0][1], "flat_unzip") and is_t(rc[2][1], "proj") and rc[2][1][2] == 1 and rc[2][1][1] == rc[2][0][1]):
+                            bad_.append(f"JVP rule applied to ({show(rc[2][0])[:60]}, {show(rc[2][1])[:60]})")
+                    elif side == "primal" and is_mcall(lf, "bind"):
+                        pass
+                    elif side == "tangent" and is_t(lf, "treemap") and mentions_any(lf, lambda x: is_call(x, "zeros_like")):
+                        pass
+                    else:
+                        bad_.append(f"{side} slot holds {show(lf)[:100]}")
+        chk.require(okr_ and not bad_, "ROLE-TANGENT", "eval_jaxpr_iterate_dual/default-arm", "outputs of a deterministic equation", derived="; ".join(dict.fromkeys(bad_))[:300] or "ok",
+                    expected="Dual.dual_tree(primal_outs, tangent_outs) with (primal_outs, tangent_outs) = jvp_rule(flat_primals, flat_tangents) (or bind(...) and zeros when there are no inputs)", where=whereI)
     jvr = [x for x in subterms(ow[0]) if is_t(x, "call") and is_t(x[1], "call") and ((is_t(x[1][1], "global") and x[1][1][1].endswith("primitive_jvps.get")) or is_mcall(x[1], "get")) and x[1][2] == (("attr", el, "primitive"),)] if ow else []
     chk.require(len(jvr) >= 1, "INTERP-SKELETON", "eval_jaxpr_iterate_dual/jvp-rule", "the JVP rule of THIS equation's primitive", derived=f"{len(jvr)} rule application(s)", expected="primitive_jvps.get(eqn.primitive)(flat_primals, flat_tangents, **params)", where=whereI)
     # the pure loop: every equation kind must bind its outvars (AST: each arm of the primitive test contains a write of eqn.outvars)
